@@ -1,4 +1,5 @@
 import PqModel.Stats
+import PqModel.LevelStats
 
 /-! # C05 — Statistics and page indexes bound the data they describe
 
@@ -13,10 +14,28 @@ open PqModel PqModel.Stats
 
 /-! ## the orders are column orders -/
 
+/-- every column order the library defines is a lawful order: INT32/INT64 and DECIMAL on them (`sint`),
+    UINT_8..64 logical types (`uint`), FLOAT/DOUBLE with NaN excluded (`float`), BYTE_ARRAY / FLBA / be128 /
+    UUID / INTERVAL-as-FLBA (`bytes`), DECIMAL on FLBA (`decimalFixed`) and on BYTE_ARRAY (`decimalBinary`),
+    INT96 (`int96`), BOOLEAN (`boolOrder`). The library has no FLOAT16 type. -/
 theorem orders_lawful :
     (∀ w, Lawful (sint w)) ∧ (∀ w, Lawful (uint w)) ∧ (∀ e m, Lawful (float e m)) ∧
-    Lawful Stats.bytes ∧ Lawful decimalFixed :=
-  ⟨sint_lawful, uint_lawful, float_lawful, bytes_lawful, decimalFixed_lawful⟩
+    Lawful Stats.bytes ∧ Lawful decimalFixed ∧ Lawful decimalBinary ∧ Lawful int96 ∧
+    Lawful (ofKey (fun b : Bool => if b then 1 else 0) (fun _ => false)) :=
+  ⟨sint_lawful, uint_lawful, float_lawful, bytes_lawful, decimalFixed_lawful, decimalBinary_lawful, int96_lawful,
+   ofKey_lawful _ _⟩
+
+/-- the library's comparison functions ARE these orders: `Int96.Less` is the signed 96-bit order, and
+    `compareDecimalByteArrays` on equal widths is the sign-flipped unsigned byte order (mixed widths and the
+    numeric kinds are tied by the differential check `c05.cmp`). -/
+theorem orders_mirror :
+    (∀ a b : I96, (a.1 < 2 ^ 32 ∧ a.2.1 < 2 ^ 32 ∧ a.2.2 < 2 ^ 32) → (b.1 < 2 ^ 32 ∧ b.2.1 < 2 ^ 32 ∧ b.2.2 < 2 ^ 32) →
+      int96Less a b = int96.lt a b) ∧
+    (∀ a b : List Nat, a.length = b.length → (∀ x ∈ a, x ≤ 255) → (∀ x ∈ b, x ≤ 255) →
+      decide (cmpDecimal a b < 0) = decimalFixed.lt a b) :=
+  ⟨int96Less_eq, cmpDecimal_fixed⟩
+
+example : int96Less (0, 0, 0x80000000) (5, 0, 0) = true ∧ cmpDecimal [0xff, 0x00] [0x00, 0x01] = -1 := by decide
 
 /-! ## page bounds -/
 
@@ -594,6 +613,95 @@ theorem boundaryOrder_sound_flba (size lim : Nat) (pages : List (Option (List Na
     exact ⟨nonNullOf_pairwise _ pages _ l1 (orderOfBytes_desc _ h1), nonNullOf_pairwise _ pages _ l2 (orderOfBytes_desc _ h2)⟩
 
 example : flbaIndexMins 2 16 [some ([1, 2], [1, 2]), none, some ([3, 4], [3, 4])] = [[1, 2], [0, 0], [3, 4]] := by decide
+
+/-! ## level histograms and size statistics -/
+
+open PqModel.LevelStats in
+/-- `histogram_exact`: for levels within `0..maxLevel` (what the Dremel shredder produces) the page histogram
+    has `maxLevel+1` buckets, bucket `l` is the number of entries with level `l`, and the buckets sum to the
+    number of entries (= num_values of the page). -/
+theorem histogram_exact (maxLevel : Nat) (levels : List Nat) (hb : ∀ x ∈ levels, x ≤ maxLevel) :
+    (pageHist maxLevel levels).length = maxLevel + 1 ∧
+    (∀ l, (pageHist maxLevel levels).getD l 0 = levels.count l) ∧
+    (pageHist maxLevel levels).sum = levels.length :=
+  pageHist_spec maxLevel levels hb
+
+example : PqModel.LevelStats.pageHist 2 [0, 2, 2, 1, 2] = [1, 1, 3] := by decide
+
+open PqModel.LevelStats in
+/-- chunk level: the chunk histogram (SizeStatistics) is the pointwise sum of the page histograms = the counts
+    over all pages, it sums to the chunk's num_values, and the flat list stored in the column index is the
+    concatenation of the page histograms, `maxLevel+1` entries per page. -/
+theorem chunkHistogram_exact (maxLevel : Nat) (pages : List (List Nat)) (hb : ∀ p ∈ pages, ∀ x ∈ p, x ≤ maxLevel) :
+    (∀ l, (chunkHists maxLevel pages).1.getD l 0 = (pages.map (fun p => (pageHist maxLevel p).getD l 0)).sum) ∧
+    (∀ l, (chunkHists maxLevel pages).1.getD l 0 = pages.flatten.count l) ∧
+    (chunkHists maxLevel pages).1.sum = (pages.map List.length).sum ∧
+    (chunkHists maxLevel pages).2 = pages.flatMap (pageHist maxLevel) ∧
+    (chunkHists maxLevel pages).2.length = pages.length * (maxLevel + 1) := by
+  have hfl : ∀ x ∈ pages.flatten, x ≤ maxLevel := by
+    intro x hx
+    obtain ⟨p, hp, hxp⟩ := List.mem_flatten.mp hx
+    exact hb p hp x hxp
+  obtain ⟨_, hcount, hsum⟩ := pageHist_spec maxLevel pages.flatten hfl
+  refine ⟨fun l => ?_, fun l => ?_, ?_, chunkHists_snd maxLevel pages, ?_⟩
+  · rw [chunkHists_fst, hcount l, sum_page_counts maxLevel l pages hb]
+  · rw [chunkHists_fst, hcount l]
+  · rw [chunkHists_fst, hsum, List.length_flatten]
+  · rw [chunkHists_snd, flatMap_pageHist_length maxLevel pages hb]
+
+example : PqModel.LevelStats.chunkHists 1 [[1, 0, 1], [0, 0]] = ([3, 2], [1, 2, 2, 0]) := by decide
+
+open PqModel.LevelStats in
+/-- `unencoded_byte_array_data_bytes` of a chunk is the total length of its non-null byte-array values, page by
+    page, dictionary-encoded or not. -/
+theorem unencodedBytes_exact (pages : List (List (List Nat))) :
+    chunkUnencoded pages = (pages.map (fun p => (p.map List.length).sum)).sum := by
+  unfold chunkUnencoded
+  rw [chunkUnencoded_fold, Nat.zero_add]
+  rfl
+
+/-- REGRESSION FACT (before the fix): a dictionary-encoded page of "abc","abc","de" counted 0 bytes, not 8 -/
+theorem unencodedBytes_dict_before_fix :
+    PqModel.LevelStats.pageUnencoded_before_fix true [[97, 98, 99], [97, 98, 99], [100, 101]] = 0 ∧
+    PqModel.LevelStats.pageUnencoded [[97, 98, 99], [97, 98, 99], [100, 101]] = 8 := by decide
+
+/-! ## statistics copied verbatim by `WriteRowGroup` -/
+
+/-- The verbatim copy path is the identity on the pages and on every statistic of the chunk (it only rebases
+    page offsets), so a sound source record stays sound in the destination file: every copied min/max, null
+    count and null-page flag still describes the copied pages. -/
+theorem copy_sound {α} {o : ColOrder α} (c : ChunkRecord α) (srcOff dstOff : Nat) (h : c.Sound o) :
+    (copyVerbatim c srcOff dstOff).Sound o ∧ (copyVerbatim c srcOff dstOff).offsets.length = c.offsets.length :=
+  ⟨{ aligned := h.aligned, nulls := h.nulls, nullPage := h.nullPage, bound := h.bound,
+     chunkBound := h.chunkBound, chunkNullsExact := h.chunkNullsExact }, by simp [copyVerbatim]⟩
+
+/-- `ChunkRecord.Sound` is satisfiable, and is what `pageBounds_bound` / `fold_bound` / `nullCounts_exact` give for
+    a chunk written by the (repaired) writer: one int32 page with a null. -/
+example : ({ pages := [[some 3#32, none]], index := [some (3#32, 3#32)], nullCounts := [1], chunk := some (3#32, 3#32),
+             chunkNulls := 1, offsets := [4] } : ChunkRecord (BitVec 32)).Sound (sint 32) where
+  aligned := by decide
+  nulls := by
+    intro i vals h
+    cases i with
+    | zero => simp at h; subst h; decide
+    | succ i => simp at h
+  nullPage := by
+    intro i vals h
+    cases i with
+    | zero => simp at h; subst h; decide
+    | succ i => simp at h
+  bound := by
+    intro i vals mn mx h hi v hv _
+    cases i with
+    | zero =>
+      simp at h hi; subst h; obtain ⟨h1, h2⟩ := hi; subst h1; subst h2
+      simp at hv; subst hv; decide
+    | succ i => simp at h
+  chunkBound := by
+    intro mn mx hc vals hv v hvin _
+    simp at hc hv; obtain ⟨h1, h2⟩ := hc; subst h1; subst h2; subst hv
+    simp at hvin; subst hvin; decide
+  chunkNullsExact := by decide
 
 /-! ## a reader that skips by this metadata never skips a matching row -/
 
